@@ -262,21 +262,6 @@ Qed.
 (* ------------------------------------------------------------------------------------ *)
 (* ares_parse_into_addrinfo                                                              *)
 (* ------------------------------------------------------------------------------------ *)
-Definition is_nil {A} (l : list A) : bool := match l with [] => true | _ :: _ => false end.
-Definition is_some {A} (o : option A) : bool := match o with Some _ => true | None => false end.
-
-Definition cn_of (c : str * str * Z) : ai_cname :=
-  mkCname (snd c) (Some (fst (fst c))) (Some (snd (fst c))).
-
-Definition node_of (port : Z) (r : rr) : option ai_node :=
-  if is_in r then
-    match rr_data r with
-    | RD_A a => Some (mkNode LEG_AF_INET a port (to_int (rr_ttl r)))
-    | RD_AAAA a => Some (mkNode LEG_AF_INET6 a port (to_int (rr_ttl r)))
-    | _ => None
-    end
-  else None.
-
 Definition is_a_in (r : rr) : bool := is_in r && match rr_data r with RD_A _ => true | _ => false end.
 Definition is_aaaa_in (r : rr) : bool := is_in r && match rr_data r with RD_AAAA _ => true | _ => false end.
 
@@ -357,9 +342,6 @@ Qed.
 (* ------------------------------------------------------------------------------------ *)
 (* ares_addrinfo2hostent on a fresh hostent                                              *)
 (* ------------------------------------------------------------------------------------ *)
-Definition fam_nodes (family : Z) (nodes : list ai_node) : list ai_node :=
-  filter (fun nd => n_family nd =? family) nodes.
-
 Lemma ai_nalias_len cn : forall i, ai_nalias cn i = (i + length cn)%nat.
 Proof. induction cn as [|c cn IH]; intros i; simpl; [lia | rewrite IH; lia]. Qed.
 
@@ -401,15 +383,6 @@ Proof.
     replace (S k - S (length (fam_nodes family nodes)))%nat with (k - length (fam_nodes family nodes))%nat by lia.
     reflexivity.
 Qed.
-
-(* what the caller reads from the hostent produced for a fresh *host *)
-Definition a2h_view (ai : addrinfo) (family : Z) : Z * hview :=
-  if is_nil (fam_nodes family (ai_nodes ai)) && is_nil (ai_cnames ai) then (ARES_ENODATA, VNull)
-  else (ARES_SUCCESS,
-        VHost (mkHV (match ai_cnames ai with c :: _ => c_name c | [] => ai_name ai end)
-                    (filter_map c_alias (ai_cnames ai)) family
-                    (if family =? LEG_AF_INET then LEG_IN_ADDR_SIZE else LEG_IN6_ADDR_SIZE)
-                    (map n_addr (fam_nodes family (ai_nodes ai))))).
 
 Lemma a2h_fresh ai family : family = LEG_AF_INET \/ family = LEG_AF_INET6 ->
   exists st ho, addrinfo2hostent ai family None = Ok (st, ho) /\
@@ -462,9 +435,6 @@ Qed.
 (* ------------------------------------------------------------------------------------ *)
 (* ares_addrinfo2addrttl                                                                 *)
 (* ------------------------------------------------------------------------------------ *)
-Definition ttl_entry (cttl : Z) (nd : ai_node) : bin * Z :=
-  (n_addr nd, if n_ttl nd >? cttl then cttl else n_ttl nd).
-
 Lemma addrttl_loop_spec family req arr_len cttl nodes : 0 <= req <= arr_len ->
   forall written, Z.of_nat (length written) <= req ->
   addrttl_loop family req arr_len cttl nodes written =
